@@ -222,7 +222,7 @@ Section Closed.
       + apply H in H6. apply RL_wrap_with in H6. via H6.
       + apply H0 in H6. via H6.
       + apply H1 in H6. via H6.
-      + apply (H2 (match ast_trefs from with f :: _ => [f] | [] => [] end) 0%nat x) in H6. via H6.
+      + apply (H2 (match rev (ast_trefs from) with f :: _ => [f] | [] => [] end) 0%nat x) in H6. via H6.
       + apply H3 in H6. via H6.
       + apply H4 in H6. via H6.
       + apply H5 in H6. via H6.
